@@ -2,6 +2,7 @@ package main
 
 import (
 	"fmt"
+	"golang.org/x/tools/go/ssa/ssautil"
 	"os"
 	"runtime/debug"
 	"runtime/pprof"
@@ -62,6 +63,23 @@ func main() {
 		for _, k := range keys {
 			c := w.contracts[k]
 			fmt.Printf("%-70s %v modular=%v lemma=%v\n", k, c.Props, c.Modular, c.Lemma)
+		}
+	case "allfuncs":
+		// allfuncs: every function and method with a body in the repository's packages (inventory for DESIGN appendix H)
+		w := loadWorld()
+		var names []string
+		for fn := range ssautil.AllFunctions(w.prog) {
+			if fn.Pkg == nil || !strings.HasPrefix(fn.Pkg.Pkg.Path(), repoPath) || len(fn.Blocks) == 0 || fn.Synthetic != "" {
+				continue
+			}
+			if fn.Parent() != nil || fn.Name() == "init" {
+				continue
+			}
+			names = append(names, fnName(fn))
+		}
+		sort.Strings(names)
+		for _, n := range names {
+			fmt.Println(n)
 		}
 	case "paramnames":
 		// paramnames: "<file>\t<contract name>\t<receiver and parameter names>" for every contract on a repository function
